@@ -1,11 +1,11 @@
 SPECIFICATION Spec
 CONSTANTS DevNums = {0, 1, 3}
- Geoms <- GeomsBig
+ Geoms <- GeomsMC
  FirstRows = {0, 1, 5}
- SepCards = {0, 1, 4, 6, 8, 9, 10, 12, 18, 27}
- SepCols = {0, 1, 2, 3, 4, 5, 9}
+ SepCards = {0, 1, 4, 6, 9, 10}
+ SepCols = {0, 1, 2, 3, 4}
  MaxPasses = 2
  ResetGroups = TRUE
- SkipLastCardCheck = FALSE
+ SkipLastCardCheck = TRUE
 INVARIANTS C19_no_collision C19_groups_cover
 CHECK_DEADLOCK FALSE
